@@ -294,7 +294,7 @@ fn entry_pool() -> Vec<Entry> {
 pub fn run(tier: Tier) -> i32 {
     let mut ctx = Ctx::new("C14", tier, "model_checking");
     ctx.assume("well-formed listings: every song starts with a non-empty `file` line; directory / playlist entries carry at most a Last-Modified line; values are MPD's spellings (seconds with three decimals, RFC 3339 dates)");
-    let sel = selections(tier.pick(3, 4));
+    let sel = selections(tier.pick(4, 5));
     let acc1 = sel
         .par_chunks(256)
         .map(|chunk| {
@@ -336,7 +336,7 @@ pub fn run(tier: Tier) -> i32 {
     cov.distinct_nontrivial = acc.nontrivial;
     cov.rule = format!(
         "one-song listings with every ordered selection of <= {} distinct lines out of 13 (duration, Time, two Range forms, Format, Last-Modified, Prio, Pos, Id, Title twice, Artist, unknown tag): {} shapes; all listings of 0..={} entries over 10 entry kinds (6 song shapes, directory / playlist with and without their own Last-Modified): {} listings; each decoded by playlistinfo, playlistinfo RANGE, find, listplaylistinfo, listallinfo (and currentsong for <= 1 song); non-trivial = listings with several entries or a song with tags / duration",
-        tier.pick(3, 4),
+        tier.pick(4, 5),
         sel.len(),
         tier.pick(3, 4),
         listings.len()
